@@ -25,7 +25,7 @@ func runC03(cfg *config) *Report {
 	var cases []kase
 	var lines []string
 	for i := 0; i < n; i++ {
-		f, err := genFile(r, genOpts{maxCL: 3, maxBundles: 3, maxItems: 3, mutateP: 70, binary: i%4 == 3, unbuilt: i%4 == 1})
+		f, err := genFile(r, genOpts{maxCL: 3, maxBundles: 3, maxItems: 3, mutateP: 70, binary: i%4 == 3, unbuilt: i%4 == 1, emptyCL: true})
 		if err != nil {
 			continue
 		}
@@ -35,6 +35,43 @@ func runC03(cfg *config) *Report {
 				if c := f.CashLetters[ci].CashLetterControl; c != nil {
 					c.SettlementDate = time.Time{}
 				}
+			}
+		}
+		if i%3 == 2 {
+			// an item with more endorsements than any other addendum kind may have (ten to thirteen addenda C / D, the
+			// standard allows 99), added AFTER the build so that the library's own verdict does not filter the input:
+			// whether the stream is conformant is decided by the Spec reader below
+			added := 0
+		grow:
+			for ci := range f.CashLetters {
+				for _, b := range f.CashLetters[ci].Bundles {
+					for _, rd := range b.Returns {
+						for len(rd.ReturnDetailAddendumD) < 10+i%4 {
+							d := baseReturnDetailAddendumD()
+							d.RecordNumber = len(rd.ReturnDetailAddendumD) + 1
+							d.EndorsingBankItemSequenceNumber = strings.TrimLeft(rd.EceInstitutionItemSequenceNumber, " ")
+							rd.ReturnDetailAddendumD = append(rd.ReturnDetailAddendumD, d)
+							rd.AddendumCount++
+							added++
+						}
+						break grow
+					}
+					for _, cd := range b.Checks {
+						for len(cd.CheckDetailAddendumC) < 10+i%4 {
+							c := baseCheckDetailAddendumC()
+							c.RecordNumber = len(cd.CheckDetailAddendumC) + 1
+							c.EndorsingBankItemSequenceNumber = strings.TrimLeft(cd.EceInstitutionItemSequenceNumber, "0 ")
+							cd.CheckDetailAddendumC = append(cd.CheckDetailAddendumC, c)
+							cd.AddendumCount++
+							added++
+						}
+						break grow
+					}
+				}
+			}
+			f.Control.TotalRecordCount += added
+			if added > 0 {
+				rep.count("item-with-ten-or-more-endorsements")
 			}
 		}
 		if i%2 == 0 {
